@@ -13,6 +13,7 @@
 package discsim
 
 import (
+	"sync/atomic"
 	"fmt"
 	"sort"
 	"sync"
@@ -65,6 +66,8 @@ type View struct {
 
 // Server is the simulated discovery server.
 type Server struct {
+	KillCode    uint32 // grpc code killed streams end with (see SetKillCode)
+	killCodeSet uint32
 	mu   sync.Mutex
 	port *portres.Port
 	Addr string
@@ -231,6 +234,24 @@ func (s *Server) UpdateEndpoints(name string, add, rem []*service.Endpoint) {
 			s.enqueue(st, &api.SvcEndpointDiscoveryResponse{SvcName: name, Added: add, Removed: rem})
 		}
 	}
+}
+
+// killErr is what the handler of a killed stream returns: the client sees that status (OK: a clean end of stream, io.EOF).
+func (s *Server) killErr() error {
+	c := codes.Code(atomic.LoadUint32(&s.KillCode))
+	if c == codes.OK && atomic.LoadUint32(&s.killCodeSet) == 0 {
+		c = codes.Unavailable
+	}
+	if c == codes.OK {
+		return nil
+	}
+	return status.Error(c, "stream killed by the harness")
+}
+
+// SetKillCode chooses the status killed streams end with.
+func (s *Server) SetKillCode(c codes.Code) {
+	atomic.StoreUint32(&s.KillCode, uint32(c))
+	atomic.StoreUint32(&s.killCodeSet, 1)
 }
 
 // Kill makes every live stream of the scope fail.
@@ -437,7 +458,7 @@ func (h *handler) run(st *stream, done <-chan struct{}, send func(m interface{})
 			}
 			select {
 			case <-st.kill:
-				return status.Error(codes.Unavailable, "stream killed by the harness")
+				return s.killErr()
 			default:
 			}
 			if err := send(m); err != nil {
@@ -447,7 +468,7 @@ func (h *handler) run(st *stream, done <-chan struct{}, send func(m interface{})
 		}
 		select {
 		case <-st.kill:
-			return status.Error(codes.Unavailable, "stream killed by the harness")
+			return s.killErr()
 		case <-done:
 			return status.Error(codes.Canceled, "stream context done")
 		case <-st.notify:
